@@ -272,8 +272,28 @@ def explore_instant(shape, cancel_at, bound, res, only_choices=None):
     return ended
 
 
+def self_test(shape, res):
+    '''Determinism: the same (instant, choices) twice gives the same menus and the same image.'''
+    seen = []
+    for _ in range(2):
+        ex = Exec(shape)
+        try:
+            out = ex.run(9, [0, 1])
+            img = sorted((p[-12:], sorted(d.items())) for p, d in ex.m.stores.data.items())
+            seen.append((out, ex.steps, ex.w.db.state.height if ex.w.db.state else None, img))
+        except common.Broken:
+            seen.append('diverged')
+        finally:
+            ex.close()
+    if seen[0] != seen[1]:
+        raise common.Broken(f'non-deterministic execution for shape {shape}')
+    res.count('determinism_self_tests')
+
+
 def run_case(case, res):
     shape = case['shape']
+    if case.get('lo') == 0 and 'choices' not in case:
+        self_test(shape, res)
     if 'choices' in case:
         explore_instant(shape, case['cancel_at'], 0, res, only_choices=case['choices'])
         return
